@@ -13,14 +13,14 @@ from gym_gridverse.outer_env import OuterEnv
 from gym_gridverse.representations.observation_representations import make_observation_representation
 from gym_gridverse.representations.state_representations import make_state_representation
 
-from vt import comp, core, envs, gen, impl, wire
+from vt import access, comp, core, envs, gen, impl, wire
 from vt.rngproxy import ScriptedRng
 
 
 def functional_oracle(ctx, env, desc, ops, outs, tape, label):
     """thread the states by hand through the functional interface, replaying the recorded answers"""
     rng = ScriptedRng(tape)
-    env._rng = rng
+    access.set_rng(env, rng)
     state, memo = None, None
     case = {'env': label, 'ops': ops}
     for k, ((kind, arg), got) in enumerate(zip(ops, outs)):
@@ -338,8 +338,8 @@ def rejected_actions(ctx):
         gvdebug.reset_gv_debug(r.random() < 0.5)
         try:
             with impl.Journal(r.randrange(1 << 30)) as j:
-                env._rng = j.own
-                env._state = env._observation = None
+                access.set_rng(env, j.own)
+                access.forget(env)
                 try:
                     env.reset()
                     for a in [r.choice(desc['actions']) for _ in range(r.randint(0, 4))]:
@@ -398,7 +398,7 @@ def run(ctx):
         gvdebug.reset_gv_debug(debug)
         functional_oracle(ctx, env, desc, ops, outs, tape, label)
         gvdebug.reset_gv_debug(None)
-        if env._state is not None:
+        if access.has_state(env):
             outer_oracle(ctx, env, ops, label)
         ctx.count('environment', label.split('-')[0] if label.startswith('random') else label)
         ctx.count('debug', debug)
